@@ -10,8 +10,8 @@ import (
 // Value model: Go values are represented Go-side as trees whose leaves are SMT terms.
 type Value interface{ isValue() }
 
-type Sc struct{ T Term }              // scalar: Int, Bool, Str, Real, or SMT array (Go array of scalars)
-type StructV struct{ F []Value }      // parallel to the fields of the struct type
+type Sc struct{ T Term }         // scalar: Int, Bool, Str, Real, or SMT array (Go array of scalars)
+type StructV struct{ F []Value } // parallel to the fields of the struct type
 type SliceV struct{ Base, Off, Len, Cap Term }
 type TupleV struct{ E []Value }
 
